@@ -531,3 +531,5 @@ V("c05-append-tokens-span-first-only", "C05", TX7, "            if style is not 
 V("c10-restore-stdout-negated", "C10", "rich/live.py", "        if self._restore_stdout:\n            sys.stdout = self._restore_stdout\n", "        if not self._restore_stdout:\n            sys.stdout = self._restore_stdout\n", "R10.1")
 V("c10-restore-stderr-foreign-guard", "C10", PG, "        if self._restore_stderr:\n            sys.stderr = self._restore_stderr\n", "        if self._restore_stdout:\n            sys.stderr = self._restore_stderr\n", "R10.1")
 V("c10-pop-hook-noop", "C10", "rich/console.py", "        self._render_hooks.pop()\n", "        self._render_hooks[-1:]\n", "R10.17")
+V("c02-line-position-in-chars", "C02", "rich/_wrap.py", "                    if start:\n                        append(start)\n                    line_position = _cell_len(word)\n", "                    if start:\n                        append(start)\n                    line_position = len(word)\n", "R2.4")
+V("c02-line-position-in-chars-2", "C02", "rich/_wrap.py", "            elif line_position and start:\n                append(start)\n                line_position = _cell_len(word)\n", "            elif line_position and start:\n                append(start)\n                line_position = len(word)\n", "R2.4")
